@@ -279,8 +279,8 @@ impl RFamily {
 
 // ---------------------------------------------------------------- generator
 
-pub const STRS: [&str; 13] = [
-    "", "a", " ", "\\", "\"", "\n", "\r", "\\n", "a\"b\\c\nd", "\u{e9}", "\u{1F600}", "# HELP", "} 1",
+pub const STRS: [&str; 15] = [
+    "", "a", " ", "\\", "\"", "\n", "\r", "\\n", "a\"b\\c\nd", "\u{e9}", "\u{1F600}", "# HELP", "} 1", "\\\u{e9}\"\u{1F600}\n\u{e9}", "x\ny 1\n# TYPE z counter\nz 2",
 ];
 
 pub fn floats() -> Vec<f64> {
